@@ -58,10 +58,16 @@ func DestinationPoint(lat, lon, meters, bearingDegrees float64) (
 	θ := bearingDegrees * radians
 	φ1 := lat * radians
 	λ1 := lon * radians
-	φ2 := math.Asin(math.Sin(φ1)*math.Cos(δ) +
-		math.Cos(φ1)*math.Sin(δ)*math.Cos(θ))
-	λ2 := λ1 + math.Atan2(math.Sin(θ)*math.Sin(δ)*math.Cos(φ1),
-		math.Cos(δ)-math.Sin(φ1)*math.Sin(φ2))
+	// The destination as a vector relative to the meridian of the start:
+	// z is the sine of its latitude, (x, y) its horizontal component. Taking
+	// the latitude from the arc sine of z alone is ill conditioned near the
+	// poles (centimetres of error within metres of a pole, NaN when rounding
+	// pushes z past 1), and so is the longitude from cosδ − sinφ1·sinφ2.
+	z := math.Sin(φ1)*math.Cos(δ) + math.Cos(φ1)*math.Sin(δ)*math.Cos(θ)
+	x := math.Cos(φ1)*math.Cos(δ) - math.Sin(φ1)*math.Sin(δ)*math.Cos(θ)
+	y := math.Sin(θ) * math.Sin(δ)
+	φ2 := math.Atan2(z, math.Hypot(x, y))
+	λ2 := λ1 + math.Atan2(y, x)
 	λ2 = math.Mod(λ2+3*math.Pi, 2*math.Pi) - math.Pi // normalise to -180..+180°
 	return φ2 * degrees, λ2 * degrees
 }
